@@ -128,6 +128,13 @@ def handle (line : String) : String :=
       | some (.int n) => s!"int {n}"
       | some (.bool b) => if b then "bool True" else "bool False"
       | some (.clo _ _) => "fn"
+      | some (.list elems) =>
+        -- printing a list demands every element (integers / Booleans only; anything else is outside the fragment)
+        let shown := elems.map (fun (e', ρ') => match ByName.bnEval fuel.toNat! ρ' e' with
+          | some (.int n) => some (toString n)
+          | some (.bool b) => some (if b then "True" else "False")
+          | _ => none)
+        if shown.all Option.isSome then s!"list [{", ".intercalate (shown.filterMap id)}]" else "none"
       | none => "none"
     | _ => "none"
   | "cli" :: fuel :: stdin :: fs :: text :: args =>
